@@ -143,6 +143,8 @@ def run(ctx):
     # The model is proved equal to the documented mapping (out_path_spec*, with_extension_spec, whitespace_rejected,
     # in_dir_conflict_spec, rerun_lists_processed), so a disagreement is an input on which the code deviates from it.
     for d in dis[:20]:
+        if d["index"] == 2 and d["impl"].startswith("panic"):
+            continue        # the fixed probe reported below under its own fingerprint
         mode = d["req"].split()[0]
         io, mo = d["impl"].split(" | ")[0], d["model"].split(" | ")[0]
         what_differs = "outcome" if io != mo else ("rerun" if d["impl"].split(" | ")[1:2] != d["model"].split(" | ")[1:2]
@@ -169,6 +171,15 @@ def run(ctx):
                           "or returning an io::Error",
                           {"request": readable_req(reqs[1]), "implementation": readable(imps[1]), "raw_request": reqs[1],
                            "model_theorem": "LalrpopModel.PathM.process_dir_on_file_panics"})
+    if len(reqs) > 2 and imps[2].startswith("panic"):
+        ctx.failing_input("c23:panic:hash_file-read-unwrap",
+                          "process_file on a path that is a DIRECTORY panics in hash_file "
+                          "(`file.read_to_end(&mut file_bytes).unwrap()` on EISDIR) when the output path already exists "
+                          "(here: `src/g.lalrpop` processed first, then the directory `src/g`, both mapping to out/g.rs) "
+                          "instead of returning an io::Error",
+                          {"request": readable_req(reqs[2]), "implementation": readable(imps[2]), "raw_request": reqs[2],
+                           "by_hand": "mkdir -p src/g && printf 'grammar;\\npub T: () = \"a\" => ();\\n' > src/g.lalrpop && "
+                                      "lalrpop -o out src/g.lalrpop src/g"})
     ctx.assumptions += [
         "paths are compared as Rust's Path::components() lists (string-level normalisation is std's)",
         "walkdir's symlink following / dangling link / loop errors are observed, not proved",
